@@ -124,3 +124,26 @@ Fixpoint mkstate (files : list (path * content)) (st : state) : state :=
   end.
 
 Definition empty_state : state := mkst (fun _ => None) (fun _ => mkfile [] 0%N) 0%N (fun _ => None).
+
+(* ---- several failing calls: one (optional) failing position per fragment;
+   the sticky D->error makes every fragment after the first failure end with
+   unlink instead of rename, and a further failure there again takes that
+   fragment's failure continuation ---- *)
+Section Multi.
+  Variable cl : bool.
+  Variable tfd : fd.
+  Fixpoint mfm_trace (frs : list frag) (e : bool) (ks : list (option nat)) : list tstep :=
+    match frs with
+    | [] => []
+    | f :: r =>
+        let k := match ks with k :: _ => k | [] => None end in
+        frag_trace cl tfd f e k ++ mfm_trace r (e || hit (plan_len f) k) (tl ks)
+    end.
+  Fixpoint mfm_modified (frs : list frag) (e : bool) (ks : list (option nat)) : list bool :=
+    match frs with
+    | [] => []
+    | f :: r =>
+        let k := match ks with k :: _ => k | [] => None end in
+        (e || hit (plan_len f) k) :: mfm_modified r (e || hit (plan_len f) k) (tl ks)
+    end.
+End Multi.
